@@ -1201,3 +1201,10 @@ func (e *Exec) traceStep(tr transition, c, n int) {
 	}
 	e.trace = append(e.trace, s)
 }
+
+// ZeroOf returns the zero value of a channel's element type (used by the instrumenter to declare a
+// range variable once, outside the rewritten loop).
+func ZeroOf[T any](ch <-chan T) T {
+	var z T
+	return z
+}
